@@ -29,7 +29,7 @@ def literals(tier):
               '5e-324', '0.1', '0.2', '0.3', '1e23', '8.41e21', '9007199254740993', '9007199254740992.5', '1.00000000000000011102230246251565404236316680908203125',
               '1.00000000000000011102230246251565404236316680908203124', '0.500000000000000166533453693773481063544750213623046875',
               '3.14159265358979323846264338327950288', '123456789012345678901234567890', '1e-5', '1.5e10', '6.02214076e23', '0.000001', '1e0', '100',
-              '17.0', '.5', '5.', '1e+3', '1E3', '0.1e1', '00012.50']:
+              '17.0', '.5', '5.', '1e+3', '1E3', '0.1e1', '00012.50', '0.0', '1e999', '-1e999', '1e-999', '-1e-999']:
         L.append(('D', h))
     # singles: "%.9g" of boundary patterns
     for e in range(0, 255, 16 if tier == 'quick' else 2):
@@ -37,7 +37,8 @@ def literals(tier):
             bits = (e << 23) | f
             x = struct.unpack('<f', struct.pack('<I', bits))[0]
             L.append(('S', '%.9g' % x))
-    for h in ['0.1', '16777217', '16777216.5', '3.4028235e38', '1.4e-45', '1.17549435e-38', '0.3', '1e10', '8.5899346e9', '7.038531e-26']:
+    for h in ['0.1', '16777217', '16777216.5', '3.4028235e38', '1.4e-45', '1.17549435e-38', '0.3', '1e10', '8.5899346e9', '7.038531e-26',
+              '-0.0', '0.0', '-1.5', '-3.4028235e38', '-1.4e-45', '1e39', '-1e39', '1e-50']:
         L.append(('S', h))
     seen = set()
     out = []
